@@ -1,7 +1,7 @@
 (* C08 - Output is a pure function of model and configuration. *)
 From Coq Require Import List NArith Bool String Permutation.
 From Dznpy Require Import Base.PyStr Base.Result Model.TextGen Model.Scoping Model.PortSelection Model.CppGen Model.Ast
-  Model.SupportFiles Model.Builder Proofs.C08Facts.
+  Model.SupportFiles Model.Builder Base.Md5 Proofs.C08Facts Proofs.Md5Facts.
 Import ListNotations.
 
 (* The model of the pipeline is a Gallina function of (templates, parsed model, configuration): it has no hash seed, no
@@ -28,6 +28,21 @@ Theorem C08_matching_order_independent : forall a a' b b' c c' d d' pp rp,
   cfg_match a b c d pp rp = cfg_match a' b' c' d' pp rp.
 Proof. exact cfg_match_equiv. Qed.
 Print Assumptions C08_matching_order_independent.
+
+(* the content hash of a generated file is the MD5 (RFC 1321, transcribed in Base/Md5.v and validated against the RFC's test
+   suite inside Coq) of the UTF-8 encoding of its contents - hence a function of the contents alone -, rendered as 32
+   lower-case hexadecimal digits *)
+Theorem C08_hash_is_md5_of_utf8_contents : forall f, g_hash f = hex_of_bytes (md5 (utf8 (g_contents f))).
+Proof. intros f. reflexivity. Qed.
+Print Assumptions C08_hash_is_md5_of_utf8_contents.
+Theorem C08_hash_shape : forall f, List.length (g_hash f) = 32%nat /\ forallb is_lower_hex (g_hash f) = true.
+Proof. intros f. exact (content_hash_shape (g_contents f)). Qed.
+Print Assumptions C08_hash_shape.
+Theorem C08_equal_inputs_equal_hashes : forall tp fc c d, config_equiv c d ->
+  option_map (map g_hash) (match build tp fc c with Ok fs => Some fs | Err _ => None end) =
+  option_map (map g_hash) (match build tp fc d with Ok fs => Some fs | Err _ => None end).
+Proof. intros tp fc c d H. now rewrite (build_perm_invariant tp fc c d H). Qed.
+Print Assumptions C08_equal_inputs_equal_hashes.
 
 (* non-vacuity: the F3 witness - four names in two different listing orders render identically *)
 Example demo_overview :
